@@ -156,13 +156,13 @@ func sortedKeys[V any](m map[string]V) []string {
 
 // DiffOpts relaxes parts of the comparison.
 type DiffOpts struct {
-	SkipFields   bool     // do not compare Fields
-	FieldsAnyOf  [][]string // if set, got.Fields must equal one of these
-	DVFieldsSub  bool     // got.DVFields must be a superset of fields having DV content and a subset of want.DVFields
-	SkipStored   bool
-	SkipIndex    bool
-	SkipDV       bool
-	SkipThes     bool
+	SkipFields  bool       // do not compare Fields
+	FieldsAnyOf [][]string // if set, got.Fields must equal one of these
+	DVFieldsSub bool       // got.DVFields must be a superset of fields having DV content and a subset of want.DVFields
+	SkipStored  bool
+	SkipIndex   bool
+	SkipDV      bool
+	SkipThes    bool
 }
 
 // Diff returns "" when got matches want, else a description of the first difference.
